@@ -148,6 +148,24 @@ def traversal_shapes(f: FuncInfo, recv: ClassInfo | None = None) -> dict:
     return out
 
 
+def _allowed_test(t) -> bool:
+    if isinstance(t, ast.Name):
+        return True
+    if isinstance(t, ast.Attribute) and isinstance(t.value, ast.Name):
+        return True      # truthiness of an own attribute / of the element's attribute holding the child
+    if isinstance(t, ast.UnaryOp) and isinstance(t.op, ast.Not):
+        return _allowed_test(t.operand)
+    if isinstance(t, ast.BoolOp):
+        return all(_allowed_test(v) for v in t.values)
+    if isinstance(t, ast.Compare):
+        names = {n.id for n in ast.walk(t) if isinstance(n, ast.Name)}
+        return all(isinstance(o, (ast.Is, ast.IsNot, ast.Eq, ast.NotEq, ast.In, ast.NotIn)) for o in t.ops) and not any(isinstance(n, ast.Call) for n in ast.walk(t)) \
+            and (bool(names & {"current_table", "new_table"}) or any(isinstance(c_, ast.Constant) and c_.value is None for c_ in t.comparators))
+    if isinstance(t, ast.Call) and isinstance(t.func, ast.Name) and t.func.id in ("isinstance", "hasattr", "callable"):
+        return True
+    return False
+
+
 def is_noop(f: FuncInfo) -> bool:
     body = [s for s in f.node.body if not (isinstance(s, ast.Expr) and isinstance(s.value, ast.Constant))]
     return len(body) == 1 and isinstance(body[0], ast.Return) and isinstance(body[0].value, ast.Name) and body[0].value.id == f.params[0]
@@ -166,6 +184,7 @@ def check(program: Program, run: Run) -> None:
     run.rule("R2 per statement: every clause attribute rendered as term/table slot is rewritten by the effective replace_table; FROM items are recursed into")
     run.rule("R3 every x.replace_table(...) inside a replace_table resolves to a definition for the declared class of x; sibling classes agree on how a shared attribute is rewritten")
     run.rule("R4 every replace_table definition other than the Term no-op is @builder")
+    run.rule("R5 a child is rewritten unconditionally: the only tests allowed around x.replace_table(...) are type/None tests on x or comparisons with the tables being exchanged")
     term = program.cls("Term")
     sel = program.cls("Selectable")
     noop = term.methods.get("replace_table")
@@ -184,6 +203,46 @@ def check(program: Program, run: Run) -> None:
         run.ob("C16/R4 replace_table is builder-decorated (receiver unchanged)", f.qualname, f.is_builder, where=f.loc())
         if not f.is_builder:
             run.finding(f"C16/not-builder:{f.qualname}", f"{f.qualname} is not @builder: it rewrites the receiver in place", where=f.loc(), rule="R4")
+
+    # R5: `x.replace_table(..) if x.fields_() else x` looks like an optimisation, but what a child *reports* (fields_,
+    # tables_, is_aggregate ...) is not what it *contains* (a subquery reports no fields)
+    nrw = 0
+    for f in defs:
+        if f is noop:
+            continue
+        parents = {}
+        for n in ast.walk(f.node):
+            for ch in ast.iter_child_nodes(n):
+                parents[ch] = n
+        for n in ast.walk(f.node):
+            if not (isinstance(n, ast.Call) and isinstance(n.func, ast.Attribute) and n.func.attr == "replace_table"):
+                continue
+            nrw += 1
+            x = n
+            while x in parents:
+                par = parents[x]
+                tests = []
+                if isinstance(par, ast.IfExp) and x is not par.test:
+                    tests.append(par.test)
+                elif isinstance(par, ast.If) and x is not par.test:
+                    tests.append(par.test)
+                elif isinstance(par, (ast.ListComp, ast.GeneratorExp, ast.SetComp, ast.DictComp)):
+                    for g in par.generators:
+                        tests += g.ifs
+                for t in tests:
+                    ok5 = _allowed_test(t)
+                    if not ok5:
+                        st5 = n
+                        while st5 in parents and not isinstance(st5, ast.stmt):
+                            st5 = parents[st5]
+                        a5 = next((a_.attr for a_ in ast.walk(st5) if isinstance(a_, ast.Attribute) and isinstance(a_.value, ast.Name) and a_.value.id == f.params[0]), "?")
+                        run.ob("C16/R5 child rewritten unconditionally", f"{f.qualname}:{ast.unparse(t)[:50]}", False, where=f.loc(n))
+                        run.finding(f"C16/conditional-rewrite:{f.qualname}:{a5}", f"{f.qualname} rewrites a child only when `{ast.unparse(t)[:60]}` holds: children for which the test is false keep the old table "
+                                    "(e.g. a subquery reports no fields of its own but contains references)", where=f.loc(n), rule="R5")
+                x = par
+    run.ob("C16/R5 child rewritten unconditionally", "all replace_table definitions", True, detail=f"{nrw} nested replace_table calls examined", nontrivial=False)
+    if nrw < 40:
+        raise AnalysisError(f"instance count below floor: nested replace_table calls {nrw}")
 
     # R1
     seen = set()
